@@ -114,13 +114,21 @@ Definition only_ops (pkg fld : string) (allowed : list string) : bool :=
 Definition puts_of (f : string) : list nat :=
   flat_map (fun p : string * string * string * string * nat =>
               let '(f', _, _, _, n) := p in if seqb f f' then [n] else []) pool_uses.
-(* f returns something to a pool and never mentions it afterwards *)
+(* does t end in s *)
+Definition ends_with (s t : string) : bool :=
+  Nat.leb (String.length s) (String.length t)
+  && seqb (substring (String.length t - String.length s) (String.length s) t) s.
+Definition is_put_call (e : ev) : bool := seqb (fst e) "call" && ends_with ".Put" (snd e).
+(* whatever f returns to a pool it never mentions afterwards.  A function without any Put (no
+   pool at all: the object is allocated per call) satisfies this; what is NOT accepted is a call
+   of some .Put(..) that the scanner did not recognise as a sync.Pool.Put (then nothing would
+   have been counted): every such call of f must be one of the recorded ones. *)
 Definition put_is_last_use (f : string) : bool :=
-  negb (Nat.eqb (length (puts_of f)) 0) && forallb (Nat.eqb 0) (puts_of f).
+  Nat.eqb (count is_put_call (events_of f)) (length (puts_of f)) && forallb (Nat.eqb 0) (puts_of f).
 Definition no_use_after_put_anywhere : bool :=
-  forallb (fun p : string * string * string * string * nat => let '(_, _, _, _, n) := p in Nat.eqb n 0) pool_uses.
-Definition pool_in_use (pool : string) : bool :=
-  existsb (fun p : string * string * string * string * nat => let '(_, q, _, _, _) := p in seqb q pool) pool_uses.
+  forallb (fun p : string * string * string * string * nat => let '(_, _, _, _, n) := p in Nat.eqb n 0) pool_uses
+  && forallb (fun fe : string * list ev =>
+                Nat.eqb (count is_put_call (snd fe)) (length (puts_of (fst fe)))) fn_events.
 
 (* ---- goroutines ---- *)
 (* types that are byte buffers or might be (unknown) *)
